@@ -83,11 +83,15 @@ class IoGenProblem(GenProblem):
         self.fluents = []
         cands = [(B, []), (B, [self.T0]), (B, [self.T1]), (B, [self.T0, self.T1])]
         if not k["bool_only"]:
-            def it():
-                return tm.IntType(0, 3) if (k["bounded"] and rng.random() < 0.5) else tm.IntType()
+            def it():       # both bounds, upper only, lower only
+                if k["bounded"] and rng.random() < 0.6:
+                    return rng.choice([tm.IntType(0, 3), tm.IntType(None, 3), tm.IntType(-1, None)])
+                return tm.IntType()
 
             def rt():
-                return tm.RealType(Fraction(-1, 2), 3) if (k["bounded"] and rng.random() < 0.5) else tm.RealType()
+                if k["bounded"] and rng.random() < 0.6:
+                    return rng.choice([tm.RealType(Fraction(-1, 2), 3), tm.RealType(None, Fraction(5, 2)), tm.RealType(Fraction(-1, 2), None)])
+                return tm.RealType()
             cands += [(it(), []), (it(), [self.T0]), (rt(), []), (rt(), [self.T1])]
             if k["obj_fluents"]:
                 cands += [(self.T0, []), (self.T1, [self.T0])]
@@ -298,6 +302,10 @@ class ViewNames(Names):
         return self.shared.id("obj", self.key("obj", o))
 
     def ty(self, t):
+        if not t.is_user_type():
+            # a numeric / Boolean parameter type: its rendering (with the bounds) is the key, so that a changed bound
+            # changes the id and is reported by sigs_agree; such a type has no objects, hence no ground instances
+            return self.shared.id("ty", "<non-user:%s>" % str(t))
         return self.shared.id("ty", self.key("ty", t))
 
     def act(self, a):
@@ -716,3 +724,127 @@ def add_temporal(g, rng, target="anml"):
                 p.add_timed_goal(ClosedTimeInterval(GlobalStartTiming(rng.choice([1, 3])), GlobalStartTiming(rng.choice([4, 6]))), c)
         except Exception:  # noqa
             pass
+
+
+# ---------------------------------------------------------------------- hand-written corner problems (run first)
+class Hand:
+    """minimal stand-in for IoGenProblem"""
+
+    def __init__(self, problem, label):
+        self.problem, self.label, self.bad = problem, label, None
+
+
+def _base(label):
+    from unified_planning.environment import Environment
+    from unified_planning.model import Problem, Object
+    env = Environment()
+    tm = env.type_manager
+    T = tm.UserType("thing")
+    p = Problem(label, env)
+    o1, o2 = Object("o1", T, env), Object("o2", T, env)
+    p.add_objects([o1, o2])
+    return env, tm, env.expression_manager, T, p, o1, o2
+
+
+def corpus_pddl():
+    """corner problems for the PDDL round trip:
+    * conditional NON-constant Boolean assignments `f := v when c` with toggles for c and v, so that the states with c
+      false / v true and c true / v false are reachable (PDDLWriter rewrites them into two conditional effects);
+    * durative actions with a condition over each of the four interval shapes [s,e] (s,e] [s,e) (s,e), each enabled by
+      its own start effect."""
+    from unified_planning.model import Fluent, InstantaneousAction, DurativeAction
+    from unified_planning.model.timing import (StartTiming, EndTiming, ClosedTimeInterval, OpenTimeInterval,
+                                               LeftOpenTimeInterval, RightOpenTimeInterval)
+    out = []
+    env, tm, em, T, p, o1, o2 = _base("cond-bool-assign")
+    B = tm.BoolType()
+    c, v, w, f, g = (Fluent(n, B, environment=env) for n in ("c", "v", "w", "f", "g"))
+    h = Fluent("h", B, x=T, environment=env)
+    for fl, val in ((c, False), (v, True), (w, False), (f, True), (g, True)):
+        p.add_fluent(fl, default_initial_value=val)
+    p.add_fluent(h, default_initial_value=True)
+    for fl in (c, v, w):
+        for val in (True, False):
+            a = InstantaneousAction("%s_%s" % ("set" if val else "clr", fl.name), _env=env)
+            a.add_effect(fl, val)
+            p.add_action(a)
+    a = InstantaneousAction("asg", _env=env)
+    a.add_effect(f, v, c)                                  # f := v when c
+    a.add_effect(g, em.Or(v, w), em.Not(c))                # g := (v or w) when not c
+    p.add_action(a)
+    a = InstantaneousAction("asgp", x=T, _env=env)
+    a.add_effect(h(a.parameter("x")), em.And(v, em.Not(w)), em.Or(c, w))     # parametrised target, compound value
+    p.add_action(a)
+    p.add_goal(em.And(em.Not(f), g))
+    out.append(Hand(p, "cond-bool-assign"))
+
+    env, tm, em, T, p, o1, o2 = _base("interval-shapes")
+    B = tm.BoolType()
+    k = Fluent("k", B, x=T, environment=env)
+    d = Fluent("d", B, environment=env)
+    p.add_fluent(k, default_initial_value=False)
+    p.add_fluent(d, default_initial_value=False)
+    shapes = (("closed", ClosedTimeInterval), ("lopen", LeftOpenTimeInterval), ("ropen", RightOpenTimeInterval),
+              ("open", OpenTimeInterval))
+    for name, mk in shapes:
+        a = DurativeAction("hold_" + name, x=T, _env=env)
+        a.set_closed_duration_interval(2, 3)
+        x = a.parameter("x")
+        a.add_condition(mk(StartTiming(), EndTiming()), k(x))
+        a.add_effect(StartTiming(), k(x), True)            # the action enables its own condition at start
+        a.add_effect(EndTiming(), d, True)
+        p.add_action(a)
+    a = InstantaneousAction("reset", x=T, _env=env)
+    a.add_precondition(k(a.parameter("x")))
+    a.add_effect(k(a.parameter("x")), False)
+    p.add_action(a)
+    p.add_goal(d)
+    out.append(Hand(p, "interval-shapes"))
+    return out
+
+
+def corpus_anml():
+    """corner problems for the ANML round trip: numeric fluent and parameter types bounded on ONE side only, with the
+    initial value on the bound so that the action stepping over it is inapplicable (bounded types are invariants)."""
+    from unified_planning.model import Fluent, InstantaneousAction
+    out = []
+    env, tm, em, T, p, o1, o2 = _base("half-bounded-fluent-types")
+    specs = (("n_up", tm.IntType(None, 3), 3, 1), ("r_up", tm.RealType(None, Fraction(5, 2)), Fraction(5, 2), 1),
+             ("n_lo", tm.IntType(0, None), 0, -1), ("r_lo", tm.RealType(Fraction(-1, 2), None), Fraction(-1, 2), -1),
+             ("n_both", tm.IntType(-1, 2), 2, 1))
+    for name, ty, init, step in specs:
+        f = Fluent(name, ty, environment=env)
+        p.add_fluent(f, default_initial_value=init)
+        a = InstantaneousAction("step_" + name, _env=env)
+        if step > 0:
+            a.add_increase_effect(f, 1)
+        else:
+            a.add_decrease_effect(f, 1)
+        p.add_action(a)
+        b = InstantaneousAction("back_" + name, _env=env)
+        if step > 0:
+            b.add_decrease_effect(f, 1)
+        else:
+            b.add_increase_effect(f, 1)
+        p.add_action(b)
+    m = Fluent("m", tm.IntType(None, 5), x=T, environment=env)     # upper-only bound on a parametrised fluent
+    p.add_fluent(m, default_initial_value=5)
+    a = InstantaneousAction("bump", x=T, _env=env)
+    a.add_increase_effect(m(a.parameter("x")), 1)
+    p.add_action(a)
+    p.add_goal(em.LE(p.fluent("n_up"), 2))
+    out.append(Hand(p, "half-bounded-fluent-types"))
+    # numeric parameters bounded on one side (no ground instances: the parameter TYPES are compared through sigs_agree
+    # and by the direct type comparison)
+    env, tm, em, T, p, o1, o2 = _base("half-bounded-parameter-types")
+    n = Fluent("n", tm.IntType(), environment=env)
+    p.add_fluent(n, default_initial_value=0)
+    a = InstantaneousAction("setk", k=tm.IntType(None, 3), q=tm.RealType(Fraction(1, 2), None), _env=env)
+    a.add_effect(n, a.parameter("k"))
+    p.add_action(a)
+    b = InstantaneousAction("setj", j=tm.IntType(1, None), _env=env)
+    b.add_effect(n, b.parameter("j"))
+    p.add_action(b)
+    p.add_goal(em.Equals(n, 2))
+    out.append(Hand(p, "half-bounded-parameter-types"))
+    return out
